@@ -367,6 +367,40 @@ def resolve_ifexp(t, conds) -> Term:
     return rebuild(t, f)
 
 
+def simplify_minmax(t, conds) -> Term:
+    """min/max atoms with an operand that the conditions `conds` make redundant lose it: under `x <= y` (or `x < y`)
+    min(x, y, ..) is min(x, ..) and max(x, y, ..) is max(y, ..)."""
+    cs = set(conds)
+
+    def le(x, y) -> bool:
+        try:
+            return mk_cmp('le', x, y) in cs or mk_cmp('lt', x, y) in cs
+        except Exception:
+            return False
+
+    def f(a):
+        if a[0] in ('min', 'max') and len(a[1]) >= 2:
+            args = list(a[1])
+            changed = True
+            while changed and len(args) > 1:
+                changed = False
+                for i_, x in enumerate(args):
+                    for j_, y in enumerate(args):
+                        if i_ == j_:
+                            continue
+                        if le(x, y):
+                            # x <= y: y is redundant in a min, x in a max
+                            del args[j_ if a[0] == 'min' else i_]
+                            changed = True
+                            break
+                    if changed:
+                        break
+            if len(args) != len(a[1]):
+                return mk_minmax(a[0], args)
+        return None
+    return rebuild(t, f)
+
+
 def _first_open_ifexp(t, cs):
     """condition of an outermost conditional-expression atom of `t` that the conditions `cs` do not decide"""
     found = []
